@@ -49,7 +49,15 @@ def run(P: Program, rep: Report):
     rep.rule("C12.R2", "entry of the function: surrounding whitespace is stripped (space, CR, LF, tab), an empty list is returned "
                        "for whitespace-only input")
     strips = [n for n in own_nodes(fi.node) if isinstance(n, ast.Call) and isinstance(n.func, ast.Attribute) and n.func.attr == "strip"]
-    ok = len(strips) >= 1 and all((not s.args) or (isinstance(s.args[0], ast.Constant) and set(s.args[0].value) == set(" \r\n\t")) for s in strips)
+    def strip_chars(c):
+        if not c.args:
+            return set(" \r\n\t")
+        try:
+            v = P.fold(fi.module, c.args[0])
+            return set(v) if isinstance(v, (str, list, tuple, set, frozenset)) else None
+        except ValueError:
+            return None
+    ok = len(strips) >= 1 and all(strip_chars(c) == set(" \r\n\t") for c in strips)
     rep.check(ok, "C12.R2", "strip-argument", fi.loc, "the input is not stripped of exactly space / CR / LF / tab before splitting")
 
     def empty(ctx):
